@@ -1221,8 +1221,246 @@ Proof.
   subst e. cbn [fst snd]. destruct b1 as [i ds es]. reflexivity.
 Qed.
 
-(* ------------------------------------------------------------------ where the faithful model
-   refutes "remove = never added": the source filter is matched scope by scope *)
+(* ------------------------------------------------------------------ remove_transition with a
+   source / dest filter removes exactly the transitions with that absolute source / dest *)
+Lemma peqb_eq : forall a b, peqb a b = true <-> a = b.
+Proof.
+  induction a as [|x r IH]; intros [|y s]; simpl; split; intros H; try reflexivity; try discriminate.
+  - apply andb_prop in H. destruct H as [H1 H2]. apply Nat.eqb_eq in H1. apply IH in H2. subst. reflexivity.
+  - injection H as -> ->. rewrite Nat.eqb_refl. apply IH. reflexivity.
+Qed.
+
+Lemma peqb_neq : forall a b, a <> b -> peqb a b = false.
+Proof. intros a b H. destruct (peqb a b) eqn:E; [|reflexivity]. apply peqb_eq in E. contradiction. Qed.
+
+Lemma peqb_app_l : forall q a b, peqb (q ++ a) (q ++ b) = peqb a b.
+Proof. induction q as [|x r IH]; intros; simpl; [reflexivity|]. rewrite Nat.eqb_refl. apply IH. Qed.
+
+(* p' is the filter p seen from the scope with absolute path Q *)
+Definition rel (Q p p' : path) : Prop := (p = [] /\ p' = []) \/ (p' <> [] /\ p = Q ++ p').
+
+Lemma is_nil_app : forall (q p : path), p <> [] -> is_nil (q ++ p) = false.
+Proof. intros q p H. destruct q; simpl; [destruct p; [congruence|reflexivity]|reflexivity]. Qed.
+
+Lemma match_rel : forall Q sp dp sp' dp' t, rel Q sp sp' -> rel Q dp dp' ->
+  rem_match sp' dp' t = abs_match Q sp dp t.
+Proof.
+  intros Q sp dp sp' dp' t [[-> ->]|[Hs ->]] [[-> ->]|[Hd ->]]; unfold rem_match, abs_match; simpl.
+  - reflexivity.
+  - rewrite (is_nil_app Q dp' Hd). destruct dp' as [|x r]; [congruence|]. simpl is_nil.
+    destruct (ht_dst t); [rewrite peqb_app_l|]; reflexivity.
+  - rewrite (is_nil_app Q sp' Hs). destruct sp' as [|x r]; [congruence|]. simpl is_nil.
+    rewrite peqb_app_l. reflexivity.
+  - rewrite (is_nil_app Q sp' Hs), (is_nil_app Q dp' Hd).
+    destruct sp' as [|x r]; [congruence|]. destruct dp' as [|y u]; [congruence|]. simpl is_nil.
+    rewrite peqb_app_l. destruct (ht_dst t); [rewrite peqb_app_l|]; reflexivity.
+Qed.
+
+Lemma rem_evs_none : forall m trig evs, nonempty_events evs = true ->
+  (forall e ts t, In (e, ts) evs -> In t ts -> m t = false) -> rem_evs m trig evs = evs.
+Proof.
+  intros m trig evs. induction evs as [|[e ts] r IH]; intros N H; simpl in *; [reflexivity|].
+  apply andb_prop in N. destruct N as [N1 N2].
+  destruct (Nat.eqb trig e).
+  - assert (F : filter (fun t => negb (m t)) ts = ts).
+    { assert (Ht : forall t, In t ts -> m t = false) by (intros t Hin; apply (H e ts t); [left; reflexivity|exact Hin]).
+      clear -Ht. induction ts as [|t l IHl]; simpl; [reflexivity|].
+      rewrite (Ht t (or_introl eq_refl)). simpl. rewrite IHl; [reflexivity|]. intros x Hx. apply Ht. right. exact Hx. }
+    rewrite F. destruct ts; [discriminate|reflexivity].
+  - rewrite IH; [reflexivity|exact N2|]. intros e0 ts0 t Hin Ht. apply (H e0 ts0 t); [right; exact Hin|exact Ht].
+Qed.
+
+Lemma wfp_evs_in : forall evs e ts t, wfp_evs evs = true -> In (e, ts) evs -> In t ts -> wfp_t t = true.
+Proof.
+  intros evs e ts t W Hin Ht. unfold wfp_evs in W. apply andb_prop in W. destruct W as [_ W].
+  rewrite forallb_forall in W. specialize (W _ Hin). simpl in W. rewrite forallb_forall in W. apply W. exact Ht.
+Qed.
+
+(* nothing below the scope P ++ [..] matches: the subtree is unchanged *)
+Lemma filt_id : forall trig sp dp c P, wfp_d c = true ->
+  (forall X t, wfp_t t = true -> abs_match ((P ++ [sd_name c]) ++ X) sp dp t = false) ->
+  filt_d trig sp dp P c = c.
+Proof.
+  intros trig sp dp c. induction c as [n en ex onf fin ign ini evs ch IH] using sdefn_ind2; intros P W H.
+  simpl in W. apply andb_prop in W. destruct W as [W1 W2]. simpl sd_name in H.
+  simpl. f_equal.
+  - apply rem_evs_none.
+    + unfold wfp_evs in W1. apply andb_prop in W1. apply W1.
+    + intros e ts t Hin Ht. specialize (H [] t (wfp_evs_in _ _ _ _ W1 Hin Ht)). rewrite app_nil_r in H. exact H.
+  - induction IH as [|c r Hc Fr IHr]; simpl in *; [reflexivity|].
+    apply andb_prop in W2. destruct W2 as [W3 W4]. rewrite (IHr W4). f_equal.
+    apply Hc; [exact W3|]. intros X t Wt. specialize (H (sd_name c :: X) t Wt).
+    rewrite <- app_assoc in *. simpl in *. rewrite <- app_assoc. exact H.
+Qed.
+
+Lemma app_longer : forall (a x : path), x <> [] -> a ++ x <> a.
+Proof.
+  intros a x Hx E. assert (L : length (a ++ x) = length a) by (rewrite E; reflexivity).
+  rewrite app_length in L. destruct x; [congruence|]. simpl in L. lia.
+Qed.
+
+Lemma wfp_src : forall t, wfp_t t = true -> ht_src t <> [].
+Proof. intros t W. unfold wfp_t in W. apply andb_prop in W. destruct W as [W _]. destruct (ht_src t); [discriminate|congruence]. Qed.
+Lemma wfp_dst : forall t d, wfp_t t = true -> ht_dst t = Some d -> d <> [].
+Proof. intros t d W E. unfold wfp_t in W. rewrite E in W. apply andb_prop in W. destruct W as [_ W]. destruct d; [discriminate|congruence]. Qed.
+
+(* a skipped child: no transition below it can match *)
+Lemma skipped_no_match : forall P c sp dp sp' dp' X t,
+  rel P sp sp' -> rel P dp dp' -> rem_skip c sp' dp' = true -> wfp_t t = true ->
+  abs_match ((P ++ [c]) ++ X) sp dp t = false.
+Proof.
+  intros P c sp dp sp' dp' X t Rs Rd K W. unfold rem_skip in K. unfold abs_match.
+  assert (SrcNo : forall r, sp = P ++ r -> (r = [c] \/ not_head c r = true) -> r <> [] ->
+            is_nil sp || peqb (((P ++ [c]) ++ X) ++ ht_src t) sp = false).
+  { intros r -> Hr Hne. rewrite (is_nil_app P r Hne). simpl. apply peqb_neq. intros E.
+    rewrite <- !app_assoc in E. apply app_inv_head in E. destruct Hr as [->|Hr].
+    - simpl in E. injection E as E. pose proof (wfp_src t W). destruct X; simpl in E; [congruence|discriminate].
+    - destruct r as [|h r']; [discriminate|]. simpl in Hr, E. injection E as E1 _. subst h.
+      rewrite Nat.eqb_refl in Hr. discriminate. }
+  assert (DstNo : forall r, dp = P ++ r -> (r = [c] \/ not_head c r = true) -> r <> [] ->
+            is_nil dp || match ht_dst t with Some d => peqb (((P ++ [c]) ++ X) ++ d) dp | None => false end = false).
+  { intros r -> Hr Hne. rewrite (is_nil_app P r Hne). simpl. destruct (ht_dst t) as [d|] eqn:D; [|reflexivity].
+    apply peqb_neq. intros E.
+    rewrite <- !app_assoc in E. apply app_inv_head in E. destruct Hr as [->|Hr].
+    - simpl in E. injection E as E. pose proof (wfp_dst t d W D). destruct X; simpl in E; [congruence|discriminate].
+    - destruct r as [|h r']; [discriminate|]. simpl in Hr, E. injection E as E1 _. subst h.
+      rewrite Nat.eqb_refl in Hr. discriminate. }
+  apply orb_prop in K. destruct K as [K|K]; [apply orb_prop in K; destruct K as [K|K]; [apply orb_prop in K; destruct K as [K|K]|]|].
+  - apply peqb_eq in K. destruct Rs as [[_ ->]|[Hne ->]]; [discriminate|].
+    rewrite (SrcNo sp' eq_refl (or_introl K) Hne). reflexivity.
+  - apply peqb_eq in K. destruct Rd as [[_ ->]|[Hne ->]]; [discriminate|].
+    rewrite (DstNo dp' eq_refl (or_introl K) Hne). apply andb_false_r.
+  - destruct Rs as [[_ ->]|[Hne ->]]; [discriminate|].
+    rewrite (SrcNo sp' eq_refl (or_intror K) Hne). reflexivity.
+  - destruct Rd as [[_ ->]|[Hne ->]]; [discriminate|].
+    rewrite (DstNo dp' eq_refl (or_intror K) Hne). apply andb_false_r.
+Qed.
+
+Lemma rel_strip : forall P c p p', rel P p p' -> peqb p' [c] = false -> not_head c p' = false ->
+  rel (P ++ [c]) p (rem_strip c p').
+Proof.
+  intros P c p p' [[-> ->]|[Hne ->]] K1 K2.
+  - left. split; reflexivity.
+  - destruct p' as [|h r]; [congruence|]. simpl in K2. apply negb_false_iff in K2. apply Nat.eqb_eq in K2. subst h.
+    right. simpl. rewrite Nat.eqb_refl. split.
+    + intros ->. simpl in K1. rewrite Nat.eqb_refl in K1. discriminate.
+    + rewrite <- app_assoc. reflexivity.
+Qed.
+
+Lemma child_step : forall trig c P sp dp sp' dp', wfp_d c = true -> rel P sp sp' -> rel P dp dp' ->
+  (forall Q s' d', rel (Q ++ [sd_name c]) sp s' -> rel (Q ++ [sd_name c]) dp d' ->
+                   rem_d trig s' d' c = filt_d trig sp dp Q c) ->
+  (if rem_skip (sd_name c) sp' dp' then c
+   else rem_d trig (rem_strip (sd_name c) sp') (rem_strip (sd_name c) dp') c) = filt_d trig sp dp P c.
+Proof.
+  intros trig c P sp dp sp' dp' W Rs Rd IH. destruct (rem_skip (sd_name c) sp' dp') eqn:K.
+  - symmetry. apply filt_id; [exact W|]. intros X t Wt. eapply skipped_no_match; eassumption.
+  - unfold rem_skip in K. apply orb_false_elim in K. destruct K as [K K4]. apply orb_false_elim in K. destruct K as [K K3].
+    apply orb_false_elim in K. destruct K as [K1 K2].
+    apply IH; apply rel_strip; assumption.
+Qed.
+
+Lemma rem_d_abs : forall trig sp dp d Q sp' dp', wfp_d d = true ->
+  rel (Q ++ [sd_name d]) sp sp' -> rel (Q ++ [sd_name d]) dp dp' ->
+  rem_d trig sp' dp' d = filt_d trig sp dp Q d.
+Proof.
+  intros trig sp dp d. induction d as [n en ex onf fin ign ini evs ch IH] using sdefn_ind2; intros Q sp' dp' W Rs Rd.
+  simpl in W. apply andb_prop in W. destruct W as [W1 W2]. simpl sd_name in *.
+  simpl. f_equal.
+  - induction evs as [|[e ts] r IHe]; [reflexivity|]. simpl. clear IHe.
+    assert (E : forall l, filter (fun t => negb (rem_match sp' dp' t)) l = filter (fun t => negb (abs_match (Q ++ [n]) sp dp t)) l).
+    { intros l. apply filter_ext. intros t. rewrite (match_rel _ _ _ _ _ t Rs Rd). reflexivity. }
+    assert (G : forall l, rem_evs (rem_match sp' dp') trig l = rem_evs (abs_match (Q ++ [n]) sp dp) trig l).
+    { induction l as [|[e0 ts0] l' IHl]; simpl; [reflexivity|]. rewrite E, IHl. reflexivity. }
+    rewrite (G r), E. reflexivity.
+  - induction IH as [|c r Hc Fr IHr]; simpl in *; [reflexivity|].
+    apply andb_prop in W2. destruct W2 as [W3 W4]. rewrite (IHr W4). f_equal.
+    apply child_step; try assumption. intros Q0 s' d' R1 R2. apply Hc; assumption.
+Qed.
+
+Lemma rel_root : forall p, rel [] p p.
+Proof. intros [|x r]; [left; split; reflexivity|right; split; [discriminate|reflexivity]]. Qed.
+
+(* THE LAW that the scope-wise matching used to refute (D46, fixed): remove_transition(trigger,
+   source, dest) = deleting, in every scope, exactly the transitions whose absolute source
+   and destination are the given paths *)
+Lemma remove_is_absolute_filter : forall trig sp dp sc, wfp_scope sc = true ->
+  rem_scope trig sp dp sc = filt_scope trig sp dp sc.
+Proof.
+  intros trig sp dp [ds evs] W. unfold wfp_scope in W. simpl in W. apply andb_prop in W. destruct W as [W1 W2].
+  unfold rem_scope, filt_scope. cbn [fst snd]. f_equal.
+  - unfold rem_children. induction ds as [|c r IH]; simpl in *; [reflexivity|].
+    apply andb_prop in W1. destruct W1 as [W3 W4]. rewrite (IH W4). f_equal.
+    apply child_step; try assumption; try apply rel_root.
+    intros Q s' d' R1 R2. apply rem_d_abs; assumption.
+Qed.
+
+(* hence: transitions added (globally) from sp to dp and removed again by that filter, on a
+   machine in which nothing else has that absolute source and destination: the machine is
+   exactly the one before *)
+Lemma rem_add_same : forall m trig l evs,
+  rem_evs m trig evs = evs ->
+  Forall (fun p => fst p = trig /\ m (snd p) = true) l ->
+  rem_evs m trig (add_hts l evs) = evs.
+Proof.
+  intros m trig l evs. revert l. induction evs as [|[e ts] r IH]; intros l H F.
+  - destruct l as [|[e0 t0] l']; [reflexivity|].
+    pose proof (Forall_inv F) as HF0. pose proof (Forall_inv_tail F) as F'. destruct HF0 as [E0 M0]. simpl in E0, M0. subst e0. unfold add_hts. simpl fold_left.
+    assert (G : forall l ts, Forall (fun p => fst p = trig /\ m (snd p) = true) l ->
+                 Forall (fun t => m t = true) ts ->
+                 rem_evs m trig (fold_left (fun e p => add_ht (fst p) (snd p) e) l [(trig, ts)]) = []).
+    { intros l0. induction l0 as [|[e1 t1] l1 IHl]; intros ts0 Fl Ft; simpl.
+      - rewrite Nat.eqb_refl.
+        assert (N : filter (fun t => negb (m t)) ts0 = []).
+        { clear -Ft. induction Ft as [|t l Ht Fl IHl]; simpl; [reflexivity|]. rewrite Ht. exact IHl. }
+        rewrite N. reflexivity.
+      - pose proof (Forall_inv Fl) as HF1. pose proof (Forall_inv_tail Fl) as Fl'. destruct HF1 as [E1 M1]. simpl in E1, M1. subst e1. simpl. rewrite Nat.eqb_refl.
+        apply IHl; [exact Fl'|].
+        apply Forall_app. split; [exact Ft|constructor; [exact M1|constructor]]. }
+    apply G; [exact F'|constructor; [exact M0|constructor]].
+  - simpl in H. destruct (Nat.eqb trig e) eqn:E.
+    + apply Nat.eqb_eq in E. subst e.
+      assert (Hts : filter (fun t => negb (m t)) ts = ts /\ ts <> []).
+      { destruct (is_nil (filter (fun t => negb (m t)) ts)) eqn:N.
+        - exfalso. assert (L : length r = length ((trig, ts) :: r)) by (rewrite <- H at 1; reflexivity). simpl in L. lia.
+        - injection H as H. split; [exact H|]. intros ->. discriminate. }
+      destruct Hts as [Hf Hne].
+      assert (G : forall l ts0, Forall (fun p => fst p = trig /\ m (snd p) = true) l ->
+                   filter (fun t => negb (m t)) ts0 = ts ->
+                   rem_evs m trig (add_hts l ((trig, ts0) :: r)) = (trig, ts) :: r).
+      { unfold add_hts. intros l0. induction l0 as [|[e1 t1] l1 IHl]; intros ts0 Fl Hf0; simpl.
+        - rewrite Nat.eqb_refl, Hf0. destruct ts; [congruence|reflexivity].
+        - pose proof (Forall_inv Fl) as HF1. pose proof (Forall_inv_tail Fl) as Fl'. destruct HF1 as [E1 M1]. simpl in E1, M1. subst e1. rewrite Nat.eqb_refl.
+          apply IHl; [exact Fl'|]. rewrite filter_app. simpl. simpl in M1. rewrite M1. simpl. rewrite app_nil_r. exact Hf0. }
+      apply G; assumption.
+    + injection H as H.
+      assert (G : forall l r0, Forall (fun p => fst p = trig /\ m (snd p) = true) l ->
+                   add_hts l ((e, ts) :: r0) = (e, ts) :: add_hts l r0).
+      { unfold add_hts. intros l0. induction l0 as [|[e1 t1] l1 IHl]; intros r0 Fl; simpl; [reflexivity|].
+        pose proof (Forall_inv Fl) as HF1. pose proof (Forall_inv_tail Fl) as Fl'. destruct HF1 as [E1 M1]. simpl in E1, M1. subst e1. rewrite E. apply IHl. exact Fl'. }
+      rewrite (G l r F). simpl. rewrite E. f_equal. apply IH; assumption.
+Qed.
+
+Lemma remove_filter_inverse : forall trig sp dp l b,
+  wfp_scope (hb_scope b) = true ->
+  filt_scope trig sp dp (hb_scope b) = hb_scope b ->
+  Forall (fun p => fst p = trig /\ abs_match [] sp dp (snd p) = true) l ->
+  hexec [HAddTransitions l; HRemove trig sp dp] b = (b, None).
+Proof.
+  intros trig sp dp l [ign ds evs] W Fx Fm. rewrite hexec_two. simpl hrun_op.
+  unfold hb_scope, hb_with in *. cbn [hb_ignore hb_states hb_events fst snd] in *.
+  unfold filt_scope in Fx. cbn [fst snd] in Fx. injection Fx as F1 F2.
+  unfold wfp_scope in W. cbn [fst snd] in W. apply andb_prop in W. destruct W as [W1 W2].
+  assert (C : rem_children trig sp dp ds = ds).
+  { pose proof (remove_is_absolute_filter trig sp dp (ds, [])) as R. unfold wfp_scope in R. cbn [fst snd] in R.
+    rewrite W1 in R. specialize (R eq_refl). unfold rem_scope, filt_scope in R. cbn [fst snd] in R.
+    injection R as R. rewrite R. exact F1. }
+  unfold rem_scope. cbn [fst snd]. rewrite C.
+  rewrite (rem_add_same (rem_match sp dp) trig l evs); [reflexivity|exact F2|exact Fm].
+Qed.
+
+(* the former counterexample (states s1 and s2{s1, s3}; s2 declares e0: s1 -> s3): nothing has
+   the absolute source s1, so remove_transition('e0', source='s1') leaves the machine alone *)
 Definition quirk_machine : hbm :=
   fst (hexec [HAddStates [HName [1] (mkHA [] [] [] false None []);
                           HDict 2 (mkHA [] [] [] false None []) true
@@ -1230,11 +1468,5 @@ Definition quirk_machine : hbm :=
                                 [(0, mkHT [1] (Some [3]) [] [] [] [])]];
                HAddTransitions [(0, mkHT [2; 3] (Some [1]) [] [] [] [])]] (hempty None)).
 
-Lemma remove_scope_refuted :
-  ~ In (0, [1]) (abs_sources quirk_machine) /\
-  abs_sources (fst (hrun_op (HRemove 0 [1] []) quirk_machine)) <> abs_sources quirk_machine.
-Proof.
-  split.
-  - vm_compute. intros [H|[H|[]]]; discriminate.
-  - vm_compute. discriminate.
-Qed.
+Lemma remove_scope_example : hrun_op (HRemove 0 [1] []) quirk_machine = (quirk_machine, None).
+Proof. vm_compute. reflexivity. Qed.
